@@ -13,7 +13,8 @@
      handler          LStart (pool 0: the goroutine runs), LFinish (response written, numInvoke--)
      Shutdown poller  LShutdown (isClosed := 1, OnShutdown), LPollBegin (tick: close message to every connection of the
                       table when isListenClosed = 1, then := 2), LPollClose (idle connection with numInvoke = 0 closed),
-                      LPollReturn (CloseIdles returned true), LPollEnd (returned false), LCtxExpire
+                      LPollReturn (CloseIdles returned true), LPollEnd (returned false), LCtxExpire (Shutdown returns;
+                      the CloseIdles call in flight, if any, still finishes: LPollClose / LPollEnd stay enabled)
                       ghost earlypoll: some tick began while isListenClosed was still 0 (the accept loop had not yet
                       noticed isClosed; the code wakes it with SetDeadline(now) 500 ms before the first tick)
      process          LExit (tars.Run returned after Shutdown returned; the process ends, every socket dies)
@@ -113,6 +114,11 @@ Definition all_closed (s : state) : bool :=
 Definition all_gone (s : state) : bool := forallb (fun c => negb (inmap s c)) (known s).
 
 Definition is_down (p : sphase) : bool := match p with SDown => true | _ => false end.
+(* Shutdown has returned (or the process is gone): no further poller tick will begin *)
+Definition returned (p : sphase) : bool := match p with SRetDrained | SRetCtx | SExited => true | _ => false end.
+(* a CloseIdles call can be running: during Shutdown, and — since it runs beside the select on the context — the one
+   in flight when the context expired goes on after Shutdown returned *)
+Definition poller_live (p : sphase) : bool := match p with SDown | SRetCtx => true | _ => false end.
 Definition alive (p : sphase) : bool := match p with SExited => false | _ => true end.
 (* isClosed = 1 *)
 Definition closed_flag (p : sphase) : bool := match p with SRun => false | _ => true end.
@@ -193,7 +199,7 @@ Definition step (s : state) (l : label) : option state :=
                 stopped := stopped s; earlypoll := earlypoll s || (listen s =? 0) |}
       else None
   | LPollClose c =>
-      if is_down (ph s) && inpoll s && inmap s c then
+      if poller_live (ph s) && inpoll s && inmap s c then
         match cst s c, busy s c with
         | COpen, [] | CExited, [] => Some (set_conn s c CClosed true (notified s c) (polled s c))
         | _, _ => None end
@@ -201,20 +207,22 @@ Definition step (s : state) (l : label) : option state :=
   | LPollReturn =>
       if is_down (ph s) && inpoll s && all_closed s then Some (set_srv s SRetDrained (listen s) false) else None
   | LPollEnd =>
-      if is_down (ph s) && inpoll s then Some (set_srv s (ph s) (listen s) false) else None
+      if poller_live (ph s) && inpoll s then Some (set_srv s (ph s) (listen s) false) else None
   | LRecvExit c =>
       match cst s c, pend s c with
       | COpen, None => if closed_flag (ph s) then Some (set_conn s c CExited true (notified s c) false) else None
       | _, _ => None end
   | LRecvClose c =>
       match cst s c, busy s c with
-      | CExited, [] => if polled s c then Some (set_conn s c CClosed false (notified s c) (polled s c)) else None
+      | CExited, [] =>
+          (* the receive loop's own 500 ms drain tick; while Shutdown polls (same period) a poller tick lies in between *)
+          if polled s c || returned (ph s) then Some (set_conn s c CClosed false (notified s c) (polled s c)) else None
       | _, _ => None end
   | LRecvGone c =>
       match cst s c with
       | CClosed => if inmap s c then Some (set_conn s c CClosed false (notified s c) (polled s c)) else None
       | _ => None end
-  | LCtxExpire => if is_down (ph s) then Some (set_srv s SRetCtx (listen s) false) else None
+  | LCtxExpire => if is_down (ph s) then Some (set_srv s SRetCtx (listen s) (inpoll s)) else None
   | LExit => match ph s with
              | SRetDrained | SRetCtx => Some (set_srv s SExited (listen s) false)
              | _ => None end
@@ -327,7 +335,7 @@ Definition ensure_returned (s : state) (ended : list req) (drained : bool) : opt
                                  | None => None end) (known s) (Some s) with
     | Some s1 => stepR (poll_tick s1) LPollReturn
     | None => None end
-  else stepR (try s LShutdown) LCtxExpire.
+  else stepR (poll_tick (try s LShutdown)) LCtxExpire.
 
 Definition obs_step (se : rstate2) (o : obs) : option rstate2 :=
   let '(s, ended) := se in
